@@ -341,6 +341,17 @@ def main(tier, seed, only=None):
             pass
         for ch in pool.chunks(us, max(60, len(us) // 8 + 1)):
             tasks.append((cfg, ch))
+    # -empty once more, one position longer, on stores next to pushes: the value that stands for "empty cell" is
+    # numbered after the values of the instructions, so instructions without output next to instructions with output
+    # are where the numbering can collide; a third position is needed to leave a copy behind
+    alpha_e = [B.P(1), B.P(2), B.I("POP"), B.I("DUP1"), B.I("SSTORE"), B.I("MSTORE")]
+    eblocks = [b for b in B.tree(alpha_e, 4, max_need=2)
+               if any(o in ("SSTORE", "MSTORE") for o, _ in b) and any(o == "PUSH" for o, _ in b)]
+    ecfgs = [("-empty",)] + [("-term-encoding", t, "-empty") for t in ("int", "stack_vars", "uninterpreted_int")]
+    for cfg in ecfgs:
+        for ch in pool.chunks([(b, dict(limits, b0=3, bs=3, nodes=20000)) for b in eblocks], 31):
+            tasks.append((cfg, ch))
+    chk.cov["empty_store_push_instances"] = {"blocks": len(eblocks), "configs": [list(c) for c in ecfgs], "b0": 3}
     pool.run_tasks(tasks, work, setup=setup, unit_timeout=60, on_result=on_r)
     # ---- long instances: one constructed model each, all print orders, both readers
     lstat = {"instances": 0, "decoded": 0, "witness_rejected": 0, "skipped": 0}
